@@ -334,6 +334,10 @@ def _resets(P, c, f, seen):
             tgt = None
             if isinstance(st, ast.Assign) and is_self_attr(st.targets[0]):
                 tgt = st.targets[0].attr
+                # assigning through a record-backed property *pushes* one observation; it does not wipe the history
+                sset = c.find_prop(tgt, "set")
+                if sset is not None and any(isinstance(x, ast.Call) and isinstance(x.func, ast.Attribute) and x.func.attr == "push" for x in walk_own(sset.node)):
+                    tgt = None
             elif isinstance(st, ast.Expr) and isinstance(st.value, ast.Call) and isinstance(st.value.func, ast.Attribute) \
                     and is_self_attr(st.value.func.value) and st.value.func.attr in ("reset", "deinitialize", "fill_", "zero_", "clear"):
                 tgt = st.value.func.value.attr
